@@ -48,9 +48,21 @@ struct Be<V: VirtualFileSystem> {
     name: &'static str,
     vfs: V,
     file: PathBuf,
+    /// how the path is spelled when a handle is OPENED (the independent observers always use `file`)
+    spell: usize,
 }
 
 impl<V: VirtualFileSystem> Be<V> {
+    /// canonical / "./"-detour / "zz/.." detour / relative to the cwd (the file's directory on both backends)
+    fn open_path(&self) -> PathBuf {
+        let dir = self.file.parent().unwrap_or(Path::new("/")).to_path_buf();
+        match self.spell % 4 {
+            0 => self.file.clone(),
+            1 => PathBuf::from(format!("{}/./f", dir.to_str().unwrap_or("").trim_end_matches('/'))),
+            2 => PathBuf::from(format!("{}/zz/../f", dir.to_str().unwrap_or("").trim_end_matches('/'))),
+            _ => PathBuf::from("f"),
+        }
+    }
     /// Put the file into its initial condition without going through the handles under test where possible
     fn setup(&self, base: Option<&[u8]>) -> Result<(), String> {
         if self.name == "stdfs" {
@@ -118,7 +130,7 @@ fn pmsg(m: &str) -> String {
 fn run_rs<V: VirtualFileSystem>(be: &Be<V>, data: &[u8], ops: &[ROp]) -> Value {
     let setup = be.setup(Some(data));
     let pre = be.content();
-    let opened = guard(|| be.vfs.read(&be.file));
+    let opened = guard(|| be.vfs.read(be.open_path()));
     let open = open_res(&opened);
     let mut res = vec![];
     if let (Ok(()), Ok(Ok(mut h))) = (setup, opened) {
@@ -164,9 +176,9 @@ fn wop_json(op: &WOp) -> Value {
 
 fn open_w<V: VirtualFileSystem>(be: &Be<V>, mode: &str) -> Result<RvResult<Box<dyn Write>>, String> {
     if mode == "trunc" {
-        guard(|| be.vfs.write(&be.file))
+        guard(|| be.vfs.write(be.open_path()))
     } else {
-        guard(|| be.vfs.append(&be.file))
+        guard(|| be.vfs.append(be.open_path()))
     }
 }
 
@@ -176,7 +188,9 @@ fn wstep<V: VirtualFileSystem>(be: &Be<V>, slot: &mut Option<Box<dyn Write>>, op
         WOp::Write(d) => {
             let h = slot.as_mut().unwrap();
             match guard(|| h.write(d)) {
-                Ok(Ok(k)) => json!({"o": "ok", "n": cap(k as u64), "c": []}),
+                // "s": what an independent observer sees right after the write (not judged by the handle contract - a handle may
+                // buffer - but it has to be the same whether the handle came from the backend or from the Vfs enum, C13)
+                Ok(Ok(k)) => json!({"o": "ok", "n": cap(k as u64), "c": [], "s": be.content()}),
                 Ok(Err(e)) => json!({"o": io_kind(&e), "n": 0, "c": []}),
                 Err(m) => json!({"o": "panic", "n": 0, "c": [], "m": pmsg(&m)}),
             }
@@ -426,8 +440,15 @@ fn main() {
         *id += 1;
         (*id - 1) % workers == worker
     };
-    let stdbe = || Be { name: "stdfs", vfs: Stdfs::new(), file: sandbox.join("f") };
-    let membe = || Be { name: "memfs", vfs: Memfs::new(), file: PathBuf::from("/f") }; // fresh instance per sequence
+    // relative spellings resolve against the cwd: the sandbox for the real filesystem, the root for the in-memory one
+    let _ = std::env::set_current_dir(&sandbox);
+    let spell = std::cell::Cell::new(0usize);
+    let next = || {
+        spell.set(spell.get() + 1);
+        spell.get()
+    };
+    let stdbe = || Be { name: "stdfs", vfs: Stdfs::new(), file: sandbox.join("f"), spell: next() };
+    let membe = || Be { name: "memfs", vfs: Memfs::new(), file: PathBuf::from("/f"), spell: next() }; // fresh instance per sequence
     let pattern: [u8; 8] = [0x61, 0x0A, 0xFF, 0x00, 0xC3, 0xA9, 0x7A, 0x0D];
     match set.as_str() {
         "rs" => {
@@ -495,6 +516,41 @@ fn main() {
                 prog.mark(id, &format!("w {} {:?} {:?}", mode, base, ops));
                 out.rec(&run_w(&membe(), mode, base.as_deref(), &ops));
                 out.rec(&run_w(&stdbe(), mode, base.as_deref(), &ops));
+            }
+        },
+        "wr" => {
+            // C13: the same sequences on a backend used directly and through the Vfs enum - the transcripts must be identical
+            let seqs = all_wseqs(&pattern, if thorough { 5 } else { 4 }, 3);
+            let bases: Vec<Option<Vec<u8>>> = vec![None, Some(vec![0x62, 0x0A, 0xE9])];
+            for mode in ["trunc", "append"] {
+                for base in &bases {
+                    for ops in &seqs {
+                        if mine(&mut id) {
+                            prog.mark(id, &format!("wr {} {:?} {:?}", mode, base, ops));
+                            let sp = next();
+                            let d = run_w(&Be { name: "stdfs", vfs: Stdfs::new(), file: sandbox.join("f"), spell: sp }, mode, base.as_deref(), ops);
+                            let v = run_w(&Be { name: "stdfs", vfs: Vfs::stdfs(), file: sandbox.join("f"), spell: sp }, mode, base.as_deref(), ops);
+                            out.rec(&json!({"k": "wr", "be": "stdfs", "what": "w", "direct": d, "via": v}));
+                            let d = run_w(&Be { name: "memfs", vfs: Memfs::new(), file: PathBuf::from("/f"), spell: sp }, mode, base.as_deref(), ops);
+                            let v = run_w(&Be { name: "memfs", vfs: Vfs::memfs(), file: PathBuf::from("/f"), spell: sp }, mode, base.as_deref(), ops);
+                            out.rec(&json!({"k": "wr", "be": "memfs", "what": "w", "direct": d, "via": v}));
+                        }
+                    }
+                }
+            }
+            let reduced = rop_domain(4, 5, (-3, 3), (-4, 2));
+            for ops in &all_rseqs(&reduced, 2) {
+                if mine(&mut id) {
+                    let data = &pattern[..3];
+                    prog.mark(id, &format!("wr-rs {:?}", ops));
+                    let sp = next();
+                    let d = run_rs(&Be { name: "stdfs", vfs: Stdfs::new(), file: sandbox.join("f"), spell: sp }, data, ops);
+                    let v = run_rs(&Be { name: "stdfs", vfs: Vfs::stdfs(), file: sandbox.join("f"), spell: sp }, data, ops);
+                    out.rec(&json!({"k": "wr", "be": "stdfs", "what": "rs", "direct": d, "via": v}));
+                    let d = run_rs(&Be { name: "memfs", vfs: Memfs::new(), file: PathBuf::from("/f"), spell: sp }, data, ops);
+                    let v = run_rs(&Be { name: "memfs", vfs: Vfs::memfs(), file: PathBuf::from("/f"), spell: sp }, data, ops);
+                    out.rec(&json!({"k": "wr", "be": "memfs", "what": "rs", "direct": d, "via": v}));
+                }
             }
         },
         "w2" => {
